@@ -243,8 +243,43 @@ class SymCtx:
             return None
         return self.model_inputs(self.ex.model)
 
+    def option(self, name, value):
+        setattr(self.ex, name, value)
+
     def note(self, s):
         self.notes.append(s)
+
+    def on_witness(self, name, fn):
+        """concolic step: run fn on a concrete witness of the current path (real module, plain
+        values, in-process); an exception there becomes a counterexample candidate that is then
+        replayed like any other"""
+        from .api import ConcreteCtx, AssumptionNotMet, ClaimFailed
+        w = self.witness_inputs()
+        if w is None:
+            self.records.append({"claim": name, "verdict": "unknown", "unconfirmed_path": True})
+            return
+        saved = core.EX
+        core.EX = None
+        try:
+            cctx = ConcreteCtx(self.S, w)
+            try:
+                fn(cctx)
+                self.records.append({"claim": name, "verdict": "proved", "unconfirmed_path": self.ex.unconfirmed, "witness_only": True, "trivial": True})
+            except AssumptionNotMet:
+                self.records.append({"claim": name, "verdict": "unknown", "unconfirmed_path": True})
+            except ClaimFailed as e:
+                self.records.append({"claim": e.name, "verdict": "cex", "inputs": w, "unconfirmed_path": self.ex.unconfirmed})
+            except Exception as e:
+                import traceback
+                tb = traceback.extract_tb(e.__traceback__)
+                where = "harness"
+                for fr in tb:
+                    if fr.filename.endswith("svgelements.py"):
+                        where = fr.name
+                self.records.append({"claim": "%s:exception:%s:%s" % (name, type(e).__name__, where), "verdict": "cex", "inputs": w,
+                                     "unconfirmed_path": self.ex.unconfirmed, "witness_exception": type(e).__name__})
+        finally:
+            core.EX = saved
 
     def unsupported(self, why):
         raise Unsupported(why)
